@@ -180,8 +180,13 @@ func (d *dgram) describe() interface{} {
 }
 
 // runDgram is the C01/C02 oracle around one datagram.
+var goroutineBase = 1 << 30
+
 func runDgram(c *mck.Ctx, d *dgram) {
 	c.SetCase(d.describe)
+	if goroutineBase == 1<<30 {
+		goroutineBase = runtime.NumGoroutine()
+	}
 	caches := flowh.NewCaches()
 	for _, p := range d.pre {
 		process(d, caches, append([]byte{}, p...))
@@ -197,6 +202,19 @@ func runDgram(c *mck.Ctx, d *dgram) {
 		atomic.StoreInt32(&wdActive, 1)
 	}
 	n, pub := process(d, caches, wire)
+	// nothing may be left RUNNING behind a processed payload: a goroutine per datagram is an unbounded leak that ends
+	// the process sooner or later (checked as growth over the worker's baseline, so whatever the harness itself runs is
+	// not counted; a few goroutines may be on their way out)
+	if g := runtime.NumGoroutine(); g > goroutineBase+4 {
+		runtime.Gosched()
+		time.Sleep(2 * time.Millisecond)
+		if g2 := runtime.NumGoroutine(); g2 > goroutineBase+4 {
+			c.Violation("leak:goroutines:"+d.sigOr(), fmt.Sprintf("%d goroutines are still there after the payload was processed (%d before it): something is left running per datagram", g2, goroutineBase), d.describe())
+			goroutineBase = g2
+		}
+	} else if g < goroutineBase {
+		goroutineBase = g
+	}
 	if *measure {
 		atomic.StoreInt32(&wdActive, 0)
 		used := totalAlloc() - a0
